@@ -179,8 +179,21 @@ def corrector_kernels(quick):
     return ks
 
 
-def case_corrector(H, cname, kname, mk, doc, extra, N, d, k):
+def case_corrector(H, cname, kname, mk, doc, extra, N, d, k, rshape=None, nograd=False):
+    """rshape: shape of the residual tensor handed to the corrector (default (N, d); e.g. (2, N/2, d): two batch dims, as the
+    optimizers produce for batched models); nograd: the corrector is called under torch.no_grad(), as GN.step / LM.step do"""
     name = 'C09/corrector/%s/%s/N=%d,d=%d,k=%d' % (cname, kname, N, d, k)
+    rshape = (N, d) if rshape is None else tuple(rshape)
+    if rshape != (N, d):
+        name += '/R-shape=%s' % 'x'.join(map(str, rshape))
+    if nograd:
+        name += '/under-no_grad'
+
+    def call(R, J):
+        if nograd:
+            with torch.no_grad():
+                return Cor(mk())(R=R.view(rshape), J=J)
+        return Cor(mk())(R=R.view(rshape), J=J)
     Cor = {'FastTriggs': C.FastTriggs, 'Triggs': C.Triggs}[cname]
 
     def prog(m):
@@ -193,14 +206,15 @@ def case_corrector(H, cname, kname, mk, doc, extra, N, d, k):
             xi = z3.Sum([rs[i * d + a] * rs[i * d + a] for a in range(d)])
             for e in extra:
                 m.ctx.assume.append(e(xi))
-        R2, J2 = Cor(mk())(R=R, J=J)
+        R2, J2 = call(R, J)
         return m.full_terms(R2), m.full_terms(J2), m.poisons(R2), m.poisons(J2), rs, js, m, R2, J2
 
     def mk_replay(rs, js):
         def replay(model):
             R = tensor_from_env(names_of(rs), model).view(N, d)
             J = tensor_from_env(names_of(js), model).view(N * d, k)
-            R2, J2 = Cor(mk())(R=R.clone(), J=J.clone())
+            R2, J2 = call(R.clone(), J.clone())
+            R2 = R2.reshape(N, d)
             if not (torch.isfinite(R2).all() and torch.isfinite(J2).all()):
                 return True, 'corrector returned NaN/Inf for R=%s' % R.tolist()
             x = (R * R).sum(-1, keepdim=True).clone().requires_grad_(True)
@@ -233,7 +247,7 @@ def case_corrector(H, cname, kname, mk, doc, extra, N, d, k):
         R = torch.randn(N, d, dtype=DT, generator=gen) * 0.5
         J = torch.randn(N * d, k, dtype=DT, generator=gen)
         try:
-            Cor(mk())(R=R, J=J)
+            call(R, J)
             H.engine_error(name, e)
         except Exception as e2:
             H.violation('C09/%s/raises' % cname, '%s raised %s: %s on a legal kernel/residual' % (name, type(e2).__name__, str(e2)[:100]), {'case': name})
@@ -310,7 +324,7 @@ def resubst(ctx, e, xv, xi):
 def run(H):
     H.assumptions += ['exact real arithmetic', 'kernel hyper-parameters are concrete (enumerated) Python floats',
                       'the library-side float constant of Tolerant (its offset) is compared with tolerance 1e-12']
-    H.bounds += ['kernel parameters: delta in {0.5,1} (quick) / {0.5,1,2,3}; Tolerant (a,b) in {(1,-1)} / {(1,-1),(2,-0.5),(0.5,-2)}',
+    H.bounds += ['corrector configurations: residual shapes (N,d) and (2,N/2,d); called with grad mode on and under torch.no_grad()', 'kernel parameters: delta in {0.5,1} (quick) / {0.5,1,2,3}; Tolerant (a,b) in {(1,-1)} / {(1,-1),(2,-0.5),(0.5,-2)}',
                  'correctors: N<=2 residual rows, d<=2, k<=2 (thorough: d=3 for FastTriggs)']
     for kname, mk, doc in kernels(H.quick):
         if getattr(H, 'only', None) and H.only not in kname:
@@ -338,4 +352,18 @@ def run(H):
                 except Exception as e:
                     import traceback; traceback.print_exc()
                     H.engine_error('corrector/%s/%s' % (cname, kname), e)
+    # configurations: residuals with two batch dims (as a batched model produces), and the call made under no_grad (as the optimizers make it)
+    done = set()
+    for cname in ('FastTriggs', 'Triggs'):
+        for kname, mk, doc, extra in corrector_kernels(H.quick):
+            fam = kname.split('(')[0]
+            if (cname, fam) in done and H.quick:
+                continue
+            done.add((cname, fam))
+            for (N, d, k, rshape, ng) in ([(4, 2, 1, (2, 2, 2), True) if cname == 'FastTriggs' else (2, 2, 1, (1, 2, 2), True)] if H.quick else [(4, 2, 1, (2, 2, 2), True), (4, 2, 2, (2, 2, 2), False), (2, 2, 1, None, True)]):
+                try:
+                    case_corrector(H, cname, kname, mk, doc, extra, N, d, k, rshape=rshape, nograd=ng)
+                except Exception as e:
+                    import traceback; traceback.print_exc()
+                    H.engine_error('corrector-config/%s/%s' % (cname, kname), e)
     return H.finish(explanation=EXPLAIN)
